@@ -284,8 +284,10 @@ def run(chk, db):
     rwrules.check_stream_class(chk, db, 'nop::StreamReader', 'reader', 'ST', 'SS')
     rwrules.check_stream_class(chk, db, 'nop::StreamWriter', 'writer', 'ST', 'SS')
     chk.rule('RC', 'the buffer readers a BoundedReader usually wraps move / skip exactly the requested bytes or fail', minimum=6)
+    chk.rule('RG', 'the checked buffer reader guards every transfer / skip by need <= what remains', minimum=2)
+    chk.rule('RE', 'a refused read / skip of the checked buffer reader leaves its position unchanged (the wrapper relies on it after a failure)', minimum=2)
     for rec in ('nop::BufferReader', 'nop::PedanticBufferReader'):
-        rwrules.check_buffer_class(chk, db, rec, {'T': None, 'G': None, 'E': None, 'C': 'RC'}, guard_required=False)
+        rwrules.check_buffer_class(chk, db, rec, {'T': None, 'G': 'RG' if rec == 'nop::PedanticBufferReader' else None, 'E': 'RE' if rec == 'nop::PedanticBufferReader' else None, 'C': 'RC'}, guard_required=(rec == 'nop::PedanticBufferReader'))
     from .. import tsrules
     tsrules.noexcept_rule(chk, db, 'NX', ('nop::BoundedReader', 'nop::BoundedWriter'), minimum=2,
                           text='members of the bounded wrappers declared noexcept call nothing that may throw (the wrapped reader / writer is arbitrary user code)')
